@@ -46,8 +46,7 @@ def unpacked_term(mol, cis_trans, size, data):
     return f'(mkUnpacked {lst(atoms)} {adj} {ct} {zraw(size)})'
 
 
-EXTRA = '''From Model Require Import Pack.
-Definition uatom_eqb (a c : uatom) : bool :=
+EXTRA = '''Definition uatom_eqb (a c : uatom) : bool :=
   (ua_n a =? ua_n c) && (ua_ngb a =? ua_ngb c) && (ua_an a =? ua_an c) && option_eqb Z.eqb (ua_iso a) (ua_iso c) &&
   option_eqb Bool.eqb (ua_stereo a) (ua_stereo c) && option_eqb Z.eqb (ua_h a) (ua_h c) && (ua_chg a =? ua_chg c) &&
   Bool.eqb (ua_rad a) (ua_rad c) && list_eqb Z.eqb (ua_xy a) (ua_xy c).
@@ -141,13 +140,16 @@ def corr(ck, unpack_mod, mols):
         meta.append(('pack', kind, str(m)))
         cases.append(f'(pack_size {pm} =? {len(data)})')
         meta.append(('pack_size', kind, str(m)))
+        # the hypothesis of the round-trip theorems holds for the real molecule
+        cases.append(f'pack_ok {pm}')
+        meta.append(('pack_ok', kind, str(m)))
         mol2, ct2, size2 = unpack_mod.unpack(data)
         cases.append(f'pyres_eqb unpacked_eqb (unpack {lst(list(data), zraw)}) (Ok {unpacked_term(mol2, ct2, size2, data)})')
         meta.append(('unpack', kind, str(m)))
         cases.append(f'pyres_eqb Z.eqb (mol_pack_len {lst(list(data), zraw)}) (Ok {MoleculeContainer.pack_len(data, compressed=False)})')
         meta.append(('pack_len', kind, str(m)))
     ck.sample({'model_call': cases[0][:300], 'of': meta[0]})
-    ok, failing, log = coqcases.run_cases('c10', 'Pack', cases, extra=EXTRA, shard=120)
+    ok, failing, log = coqcases.run_cases('c10', 'Pack PackSpec', cases, extra=EXTRA, shard=150)
     ck.oblige('correspondence: transpiled _pack_v2.pyx/_unpack_v0v2.pyx == Coq model (byte exact)', ok and not failing, 'correspondence',
               log or str([meta[i] for i in failing[:5]]))
     ck.extra['correspondence_cases'] = ck.extra.get('correspondence_cases', 0) + len(cases)
@@ -180,12 +182,12 @@ def corr_reactions(ck, rng):
             exp = 'Ok (' + ', '.join(lst(x, zraw) for x in ln) + ')'
         except IndexError:
             exp = 'Err IndexError'
-        cases.append(f'pyres_eqb lens_eqb (rxn_pack_len true {lst(list(data), zraw)}) ({exp})')
+        cases.append(f'pyres_eqb lens_eqb (rxn_pack_len {lst(list(data), zraw)}) ({exp})')
         meta.append(('rxn_pack_len', r, a, p))
         # role split of unpack: compare sizes of the three roles and the atom counts inside
         u = ReactionContainer.unpack(data, compressed=False)
         got = ([len(x) for x in u.reactants], [len(x) for x in u.reagents], [len(x) for x in u.products])
-        cases.append('pyres_eqb lens_eqb (match rxn_unpack true ' + lst(list(data), zraw) + ' with Ok (x, y, z) => '
+        cases.append('pyres_eqb lens_eqb (match rxn_unpack ' + lst(list(data), zraw) + ' with Ok (x, y, z) => '
                      'Ok (map (fun u => Z.of_nat (List.length (up_atoms u))) x, map (fun u => Z.of_nat (List.length (up_atoms u))) y, '
                      'map (fun u => Z.of_nat (List.length (up_atoms u))) z) | Err e => Err e end) (Ok (' + ', '.join(lst(x, zraw) for x in got) + '))')
         meta.append(('rxn_unpack', r, a, p))
